@@ -412,6 +412,11 @@ func (e *c10env) ops() []c10op {
 		}},
 		{"WithSkip", func(e *c10env, t *mnode) (*mnode, *slog.Entry, bool) {
 			k := r.Intn(3)
+			if e2 := t.skipKids[k]; e2 != nil && r.Bool() {
+				// the child kept for this count was given another count (or other settings) in between: WithSkip(k)
+				// hands out that child, carrying k again
+				e2.SetSkip(k + 1 + r.Intn(3))
+			}
 			ent := t.e.WithSkip(k)
 			if t.skipKids == nil {
 				t.skipKids = map[int]*slog.Entry{}
